@@ -217,3 +217,11 @@ def items(mode, slot="util", only=None, with_ops=False, with_cmp=False):
         im2.mode = mode
         out.append(im2)
     return out
+
+
+def from_impl_stub(slot="util"):
+    import copy
+    im2 = copy.copy(from_impl)
+    im2.slot = slot
+    im2.mode = "stub"
+    return im2
